@@ -111,7 +111,7 @@ Section Programs.
   Definition g_sender :=
     [Lock tmod; Unlock tmod] ++ send_buffers ++ [Lock tmod; Unlock tmod; RLock kp; RUnlock kp] ++ send_hs_initiation.
   Definition g_receiver :=
-    [Lock kp; Lock tmod; Unlock tmod; Unlock kp; Lock ep; Unlock ep; Lock tmod; Unlock tmod; RLock kp; RUnlock kp]
+    [Lock kp; Unlock kp; Lock tmod; Unlock tmod; Lock ep; Unlock ep; Lock tmod; Unlock tmod; RLock kp; RUnlock kp]
     ++ send_hs_initiation ++ [RLock aip; RUnlock aip].
   Definition g_timer_retransmit :=
     [Lock trun; Lock tmod; Unlock tmod; Lock ep; Unlock ep] ++ send_hs_initiation ++ [Unlock trun].
